@@ -179,6 +179,16 @@ class FalsyRes(Res):
         return 0
 
 
+class AwaitableObj:
+    """A non-coroutine awaitable (what a Future or a Task looks like to `inspect.isawaitable`)."""
+
+    def __init__(self, coro) -> None:
+        self._coro = coro
+
+    def __await__(self):
+        return self._coro.__await__()
+
+
 class Suspend:
     """Awaitable that yields once to the driver (used by the E3 stepper)."""
 
@@ -189,7 +199,28 @@ class Suspend:
         yield self
 
 
+def _group(*a):
+    return ExceptionGroup("hook group", [ValueError("inner")])
+
+
 FAULT_TYPES = {
+    "MemoryError": MemoryError,
+    "RecursionError": RecursionError,
+    "OSError": OSError,
+    "ZeroDivisionError": ZeroDivisionError,
+    "AttributeError": AttributeError,
+    "TypeError": TypeError,
+    "LookupError": LookupError,
+    "NotImplementedError": NotImplementedError,
+    "UnicodeError": UnicodeError,
+    "ImportError": ImportError,
+    "StopAsyncIteration": StopAsyncIteration,
+    "UserWarning": UserWarning,
+    "BufferError": BufferError,
+    "EOFError": EOFError,
+    "ConnectionResetError": ConnectionResetError,
+    "ExceptionGroup": _group,
+    "InvalidStateError": asyncio.InvalidStateError,
     "ValueError": ValueError,
     "RuntimeError": RuntimeError,
     "KeyError": KeyError,
@@ -520,7 +551,10 @@ class Env:
         def awaitable_sleeper(s):
             return env.on_sleep_async(where, s)
 
-        return {"sync": sleeper, "async": asleeper, "awaitable": awaitable_sleeper}[flavour]
+        def awaitable_obj_sleeper(s):
+            return AwaitableObj(env.on_sleep_async(where, s))  # awaitable, but not a coroutine (like a Future)
+
+        return {"sync": sleeper, "async": asleeper, "awaitable": awaitable_sleeper, "awaitable_obj": awaitable_obj_sleeper}[flavour]
 
     # --- handler / hooks -----------------------------------------------------
     def make_handler(self, where: str):
@@ -533,6 +567,9 @@ class Env:
             decisions = env.call.get("handler") or []
             d = decisions[j] if j < len(decisions) else "sleep"
             env.trace.append(("handler", where, ctx.attempt, s, d, env.now()))
+            hd = env.call.get("handler_dur") or []
+            if j < len(hd):
+                env.clock.t += g(hd[j])  # deciding may take time (e.g. enqueueing the deferred retry)
             env.maybe_fault("handler", i)
             if d == "invalid":
                 return "sleep-ish"  # not a SleepDecision member
@@ -559,7 +596,10 @@ class Env:
         def awaitable_before(ctx, s):
             return abefore(ctx, s)
 
-        return {"sync": before, "async": abefore, "awaitable": awaitable_before}[flavour]
+        def awaitable_obj_before(ctx, s):
+            return AwaitableObj(abefore(ctx, s))
+
+        return {"sync": before, "async": abefore, "awaitable": awaitable_before, "awaitable_obj": awaitable_obj_before}[flavour]
 
     def on_metric(self, event, attempt, sleep_s, tags):
         i = self.tick("on_metric")
